@@ -307,10 +307,17 @@ def r19f(ctx):
     obj = func_params(gm.node)[0]
     found = set()
     site = None
+    via_isinstance = None
     for i in walk_no_nested(gm.node):
-        if isinstance(i, ast.If) and isinstance(i.test, ast.Call) and call_name(i.test) == "isinstance" and len(i.test.args) == 2 \
-                and dotted(i.test.args[0]) == obj and any(isinstance(x, ast.Raise) for x in i.body):
-            t = i.test.args[1]
+        guard = None
+        if isinstance(i, ast.If) and isinstance(i.test, ast.Call) and len(i.test.args) == 2 and any(isinstance(x, ast.Raise) for x in i.body):
+            if call_name(i.test) == "isinstance" and dotted(i.test.args[0]) == obj:
+                guard = i.test.args[1]
+                via_isinstance = i
+            elif call_name(i.test) == "issubclass" and ast.unparse(i.test.args[0]).replace(" ", "") == f"type({obj})":
+                guard = i.test.args[1]
+        if guard is not None:
+            t = guard
             if isinstance(t, ast.Name):
                 r = m.lookup(MOD, t.id)
                 t = r[1] if r and r[0] == "assign" else t
@@ -322,6 +329,11 @@ def r19f(ctx):
     getattrs = [c for c in walk_no_nested(gm.node) if isinstance(c, ast.Call) and call_name(c) == "getattr"]
     before = site is not None and all(site.lineno < c.lineno for c in getattrs)
     missing = sorted(REQUIRED_INTROSPECTION - found)
+    if via_isinstance is not None:
+        ctx.violation("R19f", f, "get_member", via_isinstance, "guard reads __class__",
+                      f"`{norm(via_isinstance.test, 60)}`: isinstance() on the object under inspection falls back to a normal `{obj}.__class__` "
+                      f"lookup, i.e. the guard itself reads an underscore attribute through the object's __getattribute__; use "
+                      f"issubclass(type({obj}), ...)")
     if not missing and before:
         ctx.proved("R19f", f, "get_member", site, "interpreter objects refused", f"members of {sorted(found)} are refused before getattr")
     else:
@@ -352,10 +364,14 @@ def r19g(ctx):
         if h is not None:
             p0 = func_params(h.node)[0]
             subs = [x for x in walk_no_nested(h.node) if isinstance(x, ast.Subscript) and dotted(x.value) == p0]
-            guards = [i for i in walk_no_nested(h.node) if isinstance(i, ast.If) and ast.unparse(i.test).replace(" ", "") == f"isinstance({p0},type)"
+            guards = [i for i in walk_no_nested(h.node) if isinstance(i, ast.If) and ast.unparse(i.test).replace(" ", "") == f"issubclass(type({p0}),type)"
                       and any(isinstance(x, ast.Raise) for x in i.body)]
+            if any(isinstance(i, ast.If) and ast.unparse(i.test).replace(" ", "").startswith(f"isinstance({p0},") for i in walk_no_nested(h.node)):
+                ctx.violation("R19g", f, call_name(body), h.node, "guard reads __class__",
+                              f"{call_name(body)} tests `isinstance({p0}, ...)`: isinstance() falls back to reading {p0}.__class__ through the "
+                              f"object's own __getattribute__; use issubclass(type({p0}), type)")
             ok = bool(subs) and bool(guards) and all(guards[0].lineno < x.lineno for x in subs)
-            why = f"{call_name(body)} does not raise for `isinstance({p0}, type)` before `{p0}[...]`"
+            why = f"{call_name(body)} does not raise for `issubclass(type({p0}), type)` before `{p0}[...]`"
     if ok:
         ctx.proved("R19g", f, "Operator.GETITEM", s_, "classes not subscriptable", f"`{norm(lam, 50)}` refuses type objects before subscripting")
     else:
